@@ -375,6 +375,11 @@ func RunHistReuse(r *Run) {
 					}
 				}
 				pool = append(pool, no)
+				if cfg.Copy && c.Intn("scribble", 3) == 0 {
+					// default mode: the caller may recycle its buffer as soon as the call has returned
+					trace = append(trace, "input buffer overwritten ("+scribble(c, buf.b)+")")
+					buf.scribbled = true
+				}
 				readBack(r, no, bInto|bAdv, fmt.Sprintf("%s: %s %s with reuse=%v; history: %v", what, cfg, desc, ru != nil, trace), nil)
 				if !r.failed() && len(doc) < 1<<16 {
 					readBack(r, no, bIface|bMarshal, fmt.Sprintf("%s: %s %s with reuse=%v", what, cfg, desc, ru != nil), nil)
@@ -547,14 +552,27 @@ func RunHistAlias(r *Run) {
 	doc := genHistDoc(r, cfg.ND, c.Intn("bigdoc", 8) == 7)
 	r.Res.Inputs["doc"] = b64(doc)
 	r.Res.Sample["cfg"] = cfg.String()
-	o := parseNew(r, doc, cfg, "parse")
+	var trace []string
+	// optionally the object handed to Parse as reuse has a past with other option settings
+	var past *simdjson.ParsedJson
+	if c.Intn("withpast", 3) == 0 {
+		pcfg := drawCfg(c, true)
+		pcfg.Copy = c.Intn("pastcopy", 2) == 0
+		if po := parseNew(r, genHistDoc(r, pcfg.ND, false), pcfg, "earlier parse"); po != nil {
+			past = po.pj
+			trace = append(trace, "reuse object previously used for "+pcfg.String())
+		}
+		if r.failed() {
+			return
+		}
+	}
+	o := parseNewReuse(r, doc, cfg, "parse", past)
 	r.Res.Evals++
 	if o == nil || r.failed() {
 		return
 	}
 	sers := newSerializers(c, 1)
 	objs := []*simObj{o}
-	var trace []string
 	interesting := false
 	// with copying disabled and the buffer intact the exposed document must be identical (= the model)
 	readBack(r, o, bInto|bAdv|bIface, "right after parse ("+cfg.String()+")", nil)
